@@ -13,6 +13,27 @@ mod subst;
 pub use self::shift::Shift;
 pub use self::subst::Subst;
 
+/// Verification hook H1 (compiled only with `--cfg chalk_verif`): forwards to the
+/// crate-private `in_place::fallible_map_vec`, so that an external harness can drive
+/// it with drop-tracking element types.
+#[cfg(chalk_verif)]
+pub fn verif_fallible_map_vec<T, U, E>(
+    vec: Vec<T>,
+    map: impl FnMut(T) -> Result<U, E>,
+) -> Result<Vec<U>, E> {
+    in_place::fallible_map_vec(vec, map)
+}
+
+/// Verification hook H1 (compiled only with `--cfg chalk_verif`): forwards to the
+/// crate-private `in_place::fallible_map_box`.
+#[cfg(chalk_verif)]
+pub fn verif_fallible_map_box<T, U, E>(
+    b: Box<T>,
+    map: impl FnOnce(T) -> Result<U, E>,
+) -> Result<Box<U>, E> {
+    in_place::fallible_map_box(b, map)
+}
+
 /// A "folder" is a transformer that can be used to make a copy of
 /// some term -- that is, some bit of IR, such as a `Goal` -- with
 /// certain changes applied. The idea is that it contains methods that
